@@ -132,7 +132,13 @@ Proof.
               (arom_supported num chg rad = true /\ ((arom_bonds e = 2 /\ (sigma_sum e = 0 \/ sigma_sum e = 1)) \/ (arom_bonds e = 3 /\ sigma_sum e = 0))))
     by (rewrite arom_supported_iff; tauto).
   rewrite R.
-  destruct (arom_h_cases num chg rad e) as [[E [S [A B]]] | [[E [S C]] | [E N]]]; rewrite E; split; intros X; fin.
+  destruct (arom_h_cases num chg rad e) as [[E [S [A B]]] | [[E [S C]] | [E N]]]; rewrite E; split; intros X.
+  - discriminate.
+  - exfalso. apply X. split; [exact S|]. left. split; [exact A | left; exact B].
+  - discriminate.
+  - exfalso. apply X. split; [exact S|]. destruct C as [[A B] | [A B]]; [left; split; [exact A | right; exact B] | right; split; assumption].
+  - exact N.
+  - reflexivity.
 Qed.
 
 (* an aromatic atom that gets a count is three-connected: aromatic bonds + localised bond orders + hydrogens = 3 *)
